@@ -173,6 +173,8 @@ class RungeKuttaIntegrator(TableauIntegrator, abc.ABC):
                 self.stage_values[...,0] = self.final_rhs
         else:
             self.initial_rhs = rhs(initial_time, initial_state, **constants)
+        # every attempt of this call overwrites final_rhs: it describes (final_time, final_state) again only once the call has completed
+        self.final_time, self.final_state = None, None
 
         if self.is_implicit and self.__rhs_jac is None:
             self.__rhs_jac = rhs.jac(initial_time, initial_state, **constants)
